@@ -31,7 +31,7 @@ BASE = ['x + 1', 'len(y)', 'y.push(1)\ny', 'z = x\nz', 'undefined_q', '1 +', 'f 
         'd["k"]', '[x, [x]]', '{"a": y}', 'x / 0', 'for', 'y[5]', 'x if x > 2 else y', 'sorted(y)', 'g(1)', '', '# c', 'x;;y',
         'y | map(v => v * 2) | sum', 'x = x + 1\nx', 'len([1, 2, 3])', 'str(x) + "!"', 'd["n"] = y\nd', 'min(y)', '$', 'del d["k"]\nd',
         'y += [x]\ny', 'h = [1]\nh.push(h)\nlen(h)', '[]', '{}', 'x if False else []', 'get(d, "zz", [])', '[[], {}]', 'q = []\nq',
-        'a b', 'x = 1\ny y', 'z = 1\nz +* 2', 'x = 2; y y', 'r = []\nr.push([])\nr[0].push(x)\nr']
+        'f = v => f(v + 1)\nf(0)', 'y | map(v => v / 0)', '%a b% + 1', '%a  b% + 1', '%a\tb% + 1', 'a b', 'x = 1\ny y', 'z = 1\nz +* 2', 'x = 2; y y', 'r = []\nr.push([])\nr[0].push(x)\nr']
 WS = ['', '', '', ' ', '\t', '\n', '\r\n', '\r', '\x0c', '\xa0', '  \n', ';']
 BUDGETS = [100, 100, 100, 10 ** 6, 6, 3, 1]
 
@@ -104,7 +104,7 @@ def host_fn(v=None):
 
 def make_names():
     return [
-        {'x': D(5), 'y': [D(3), D(1)], 'd': {'k': D(1)}},
+        {'x': D(5), 'y': [D(3), D(1)], 'd': {'k': D(1)}, '%a b%': D(1), '%a  b%': D(2)},
         {'x': D(1), 'y': [], 'd': {}, 'len': host_fn, 'g': host_fn},
         {'x': 'str', 'y': ['b', 'a'], 'd': {'k': [D(1)]}, 'max': D(3)},
     ]
